@@ -124,6 +124,74 @@ pub fn run(a: &Args) -> i32 {
     fill_report(&mut rep, &w, &n);
     rep.add("boundary_roots", boundary_roots);
 
+    // ---- part B': one long-lived Game polled after every ply ----
+    // boards pre-loaded with 93..99 plies on the clock, every quiet king path of six plies (positions
+    // recur along many of them), `check_game_over_for_current_turn` after every ply: drawn exactly
+    // when the clock has reached 100 (or a position has occurred three times)
+    {
+        use chess::game::game::Game;
+        use rayon::prelude::*;
+        let root0 = Pos::from_fen("7k/8/8/8/8/8/8/K7 w - - 0 1").unwrap();
+        let allowed: Vec<Sq> = ["a1", "b1", "b2", "a2", "h8", "g8", "g7", "h7"].iter().map(|x| parse_sq(x).unwrap()).collect();
+        let mut paths: Vec<Vec<Move>> = vec![vec![]];
+        for _ in 0..6 {
+            let mut next = Vec::new();
+            for h in &paths {
+                let mut p = root0.clone();
+                for m in h {
+                    p = p.make(m);
+                }
+                for m in p.legal_moves().into_iter().filter(|m| allowed.contains(&m.from) && allowed.contains(&m.to)) {
+                    let mut t = h.clone();
+                    t.push(m);
+                    next.push(t);
+                }
+            }
+            paths = next;
+        }
+        let step = if thorough { 1 } else { 3 };
+        let jobs: Vec<(u32, &Vec<Move>)> = [93u32, 94, 95, 96, 97, 98, 99].iter().flat_map(|h| paths.iter().step_by(step).map(move |p| (*h, p))).collect();
+        let polls = std::sync::atomic::AtomicU64::new(0);
+        let sink_ref = &sink;
+        jobs.par_iter().for_each(|(half, h)| {
+            let mut root = root0.clone();
+            root.halfmove = *half;
+            root.ply = 200;
+            let mut g = Game::from_board(build_board(&root), 1);
+            let mut p = root.clone();
+            let mut occ: std::collections::HashMap<CKey, u32> = std::collections::HashMap::new();
+            occ.insert(canon(&p), 1);
+            let mut played: Vec<String> = Vec::new();
+            for m in h.iter() {
+                match guarded(|| g.apply_chess_move_by_from_to_coordinates(bb(m.from), bb(m.to))) {
+                    Ok(Ok(_)) => {}
+                    _ => break, // C14's subject
+                }
+                g.board_mut().toggle_turn();
+                p = p.make(m);
+                played.push(uci(m));
+                let c = {
+                    let e = occ.entry(canon(&p)).or_insert(0);
+                    *e += 1;
+                    *e
+                };
+                polls.fetch_add(1, std::sync::atomic::Ordering::Relaxed);
+                let got = guarded(|| g.check_game_over_for_current_turn());
+                let is_draw = matches!(got, Ok(Some(GameEnding::Draw)));
+                let want_draw = p.halfmove >= 100 || c >= 3;
+                if is_draw != want_draw {
+                    sink_ref.push(Violation { prop: "C16".into(), class: if want_draw { "game-not-drawn-at-100".into() } else { "game-drawn-before-100".into() }, seed: root.to_fen(), path: played.clone(), detail: format!("one Game polled after every ply: after {:?} the half-move clock is {} (position seen {} time(s)), verdict {:?}", played, p.halfmove, c, got.as_ref().map(|x| format!("{:?}", x))), extra: json!({"kind": "c16-game"}) });
+                    break;
+                }
+                if want_draw {
+                    break;
+                }
+            }
+        });
+        rep.add("game_level_polls_with_preloaded_clocks", polls.load(std::sync::atomic::Ordering::Relaxed));
+        rep.transitions += polls.load(std::sync::atomic::Ordering::Relaxed);
+    }
+
     // ---- part C: graph BFS ----
     for gs in GRAPH_SEEDS {
         if gs.thorough_only && !thorough {
@@ -148,7 +216,7 @@ pub fn run(a: &Args) -> i32 {
         "a checkmated / stalemated position whose clock is >= 100 is not judged (the statement does not fix the precedence)".into(),
         "built with overflow checks, so a wrapping counter aborts and is reported".into(),
     ];
-    rep.mandatory = vec!["clock_steps_checked".into(), "quiet_pawn_moves".into(), "states_at_or_past_100".into(), "draw_verdicts_checked".into(), "graph_transitions".into()];
+    rep.mandatory = vec!["clock_steps_checked".into(), "quiet_pawn_moves".into(), "states_at_or_past_100".into(), "draw_verdicts_checked".into(), "graph_transitions".into(), "game_level_polls_with_preloaded_clocks".into()];
     rep.finish(&sink)
 }
 
